@@ -284,6 +284,24 @@ func inject(r *rng.R, env *gtext.Env, t *gtext.T, v *wv.V, hist func(string)) *w
 		pos := r.Intn(len(c.Fields) + 1)
 		c.Fields = append(c.Fields[:pos], append([]wv.Field{{ID: id, V: x}}, c.Fields[pos:]...)...)
 	}
+	// a declared field sent twice, well-typed both times (the same value, so that whichever occurrence
+	// wins the result is the same): a reader must not take the count of what it has read for the
+	// number of fields it has seen
+	if len(c.Fields) >= 2 && r.Chance(1, 3) {
+		var cands []int
+		for j, f := range c.Fields {
+			if fd := byID[f.ID]; fd != nil && fd.T.Code() == f.V.T {
+				cands = append(cands, j)
+			}
+		}
+		if len(cands) > 0 {
+			j := cands[r.Intn(len(cands))]
+			dup := c.Fields[j]
+			pos := r.Intn(j + 1)
+			c.Fields = append(c.Fields[:pos], append([]wv.Field{dup}, c.Fields[pos:]...)...)
+			hist("inject-declared-field-twice")
+		}
+	}
 	return &c
 }
 
